@@ -43,6 +43,16 @@ fn main() {
     let k = known.clone();
     ck.run(Section::pbt("typed-key-injectivity", tier.pick(4000, 400_000), disk::pair_strategy, move |c| disk::check_pair(c, &k)).shards(12));
     let k = known.clone();
+    ck.run(
+        Section::enumerate(
+            "typed-key-pairs-with-equal-lookup3-hash",
+            "three pairs of well-formed Ribbit keys whose cache key strings collide under the 64-bit lookup3 hash (constructed), flat and hashed layouts: put(a, A), put(b, B), get(a) = A, get(b) = B, two files, also for a fresh instance",
+            || Box::new(disk::colliding_pairs().into_iter()),
+            move |c| disk::check_pair(c, &k),
+        )
+        .shards(9),
+    );
+    let k = known.clone();
     ck.run(Section::pbt("protocol-cache", tier.pick(3000, 300_000), proto::protocache_strategy, move |c| proto::check_protocache(c, &k)).shards(8));
     let k = known.clone();
     ck.run(Section::pbt("protocol-cache-key-pairs", tier.pick(3000, 300_000), proto::protopair_strategy, move |c| proto::check_protopair(c, &k)).shards(8));
